@@ -203,6 +203,12 @@ pub fn skeletons() -> Vec<(&'static str, Vec<Op>)> {
 
 /// A seeded history: actors and operations (directed skeleton + mutation, or free-form).
 pub fn gen_history(r: &mut Rng, mean_ops: u64, max_ops: u64) -> (Vec<Actor>, Vec<Op>, String) {
+    gen_history_with(r, mean_ops, max_ops, true)
+}
+
+/// `allow_long = false` for engines that run hundreds of children per world (a 1 000-commit history
+/// with 150 tagged commits makes every child cost hundreds of git processes)
+pub fn gen_history_with(r: &mut Rng, mean_ops: u64, max_ops: u64, allow_long: bool) -> (Vec<Actor>, Vec<Op>, String) {
     let actors = gen_actors(r);
     let sw = gen_swarm(r, actors.len());
     let mut ops: Vec<Op> = vec![];
@@ -247,14 +253,16 @@ pub fn gen_history(r: &mut Rng, mean_ops: u64, max_ops: u64) -> (Vec<Actor>, Vec
     }
     // now and then a long history: a couple of hundred commits, a tag every few commits, a side line
     // merged back now and then (limits, buffers, quadratic shortcuts only show at this size)
-    if r.chance(1, 40) {
-        // one in ten of them is *very* long (beyond any page or buffer of a thousand entries)
-        let n = if r.chance(1, 10) { 1050 + r.below(300) } else { 80 + r.below(160) };
+    if r.chance(1, 30) && allow_long {
+        let flavour = r.below(3);
+        // some are *very* long (beyond any page or buffer of a thousand entries): one in ten, and half
+        // of those whose point is the long untagged stretch
+        let very = if flavour == 2 { r.chance(1, 2) } else { r.chance(1, 10) };
+        let n = if very { 1050 + r.below(300) } else if flavour == 1 { 160 + r.below(200) } else { 80 + r.below(160) };
         let mut long: Vec<Op> = vec![Op::Commit { actor: 0, dt: 1, adt: 0, with_file: false }, Op::Branch { name: "side-line".into(), from: None }];
         // three flavours: version tags all along; one version tag at the very beginning and only
         // non-version tags after it (every tagged commit has to be visited); one long untagged stretch that
         // is merged into a side line carrying the nearest tag
-        let flavour = r.below(3);
         let mut minor = 0u64;
         if flavour == 2 {
             long.push(Op::Tag { name: "v1.0.0".into(), kind: TagKind::Light, target: None, actor: 0, dt: 0 });
